@@ -255,13 +255,23 @@ def install(ex):
     # ---- iterator with symbolic membership
     def si(st, a):
         v = res(ex, st, a)
+        if isinstance(v, Agg) and v.name == 'Box' and len(v.fields) == 1:
+            v = res(ex, st, v.fields[0])
         return v if isinstance(v, Agg) and v.name == '~sym_iter' else None
+
+    def si_ref(ex_, st, a):
+        """the reference under which the iterator value itself lives (looking through a Box)"""
+        r = base_ref(ex_, st, a)
+        v = ex_.read(st, r.fid, r.place)
+        if isinstance(v, Agg) and v.name == 'Box' and len(v.fields) == 1:
+            return Ref(r.fid, ('field', r.place, 0, '?'))
+        return r
 
     def si_next(ex_, st, c, A):
         it = si(st, A[0])
         if it is None:
             return None
-        r = base_ref(ex_, st, A[0])
+        r = si_ref(ex_, st, A[0])
         alts, neg = [], []
         for j, e in enumerate(it.fields):
             cnd, item = e.fields[0].t, e.fields[1]
@@ -273,21 +283,43 @@ def install(ex):
     ex.stub(r' as Iterator>::next$', si_next, 'iterator with symbolic membership: next forks on the first member present')
     ex.stub(r' as IntoIterator>::into_iter$', lambda ex_, st, c, A: A[0] if si(st, A[0]) is not None and not isinstance(A[0], Ref) else None, 'iterator with symbolic membership: into_iter')
 
+    def si_chain(ex_, st, c, A):
+        a, b = si(st, A[0]), si(st, A[1])
+        if a is None or b is None:
+            return None
+        return Agg('struct', '~sym_iter', None, list(a.fields) + list(b.fields))
+    ex.stub(r' as Iterator>::chain::<', si_chain, 'iterator with symbolic membership: chain')
+
     def si_collect(ex_, st, c, A):
         it = si(st, A[0])
         if it is None:
             return None
         tgt = 'set' if re.search(r'collect::<(std::collections::)?HashSet<', c) else 'vec'
+        # membership already decided by the path condition does not fork
+        status = []
+        for e in it.fields:
+            cnd = z3.simplify(e.fields[0].t)
+            if z3.is_true(cnd):
+                status.append('T')
+            elif z3.is_false(cnd):
+                status.append('F')
+            elif not ex_.feasible(st.pc + [z3.Not(cnd)]):
+                status.append('T')
+            elif not ex_.feasible(st.pc + [cnd]):
+                status.append('F')
+            else:
+                status.append('U')
+        und = [j for j, s_ in enumerate(status) if s_ == 'U']
         alts = []
-        n = len(it.fields)
-        for mask in range(1 << n):
+        for mask in range(1 << len(und)):
             conds, items = [], []
+            choice = {j: bool(mask >> k & 1) for k, j in enumerate(und)}
             for j, e in enumerate(it.fields):
-                if mask >> j & 1:
-                    conds.append(e.fields[0].t)
+                inn = status[j] == 'T' or choice.get(j, False)
+                if j in choice:
+                    conds.append(e.fields[0].t if inn else z3.Not(e.fields[0].t))
+                if inn:
                     items.append(e.fields[1])
-                else:
-                    conds.append(z3.Not(e.fields[0].t))
             alts.append((conds, Agg('struct', '~vec', None, items) if tgt == 'vec' else cset([res(ex_, st, x) for x in items])))
         return alts
     ex.stub(r' as Iterator>::collect::<', si_collect, 'iterator with symbolic membership: collect forks over the member subsets')
@@ -313,3 +345,85 @@ def install(ex):
             raise NotEncoded('contains of a symbolic key')
         return BoolV(z3.simplify(z3.Or([e.fields[0].t for e in it.fields if ckey(ex_, st, e.fields[1]) == k] or [F])))
     ex.stub(r' as (itertools::)?Itertools>::contains::<', si_contains, 'iterator with symbolic membership: contains')
+
+
+def sset(bits):
+    """a set over the concrete ids 0..len(bits)-1 with symbolic membership"""
+    return Agg('struct', '~sset', None, [BoolV(b) for b in bits])
+
+
+def install_symbolic_sets(ex, key_cell):
+    """HashSet<K> with symbolic membership over concrete ids; key_cell(j) -> Ref to a cell holding id j (for iterators of &K)"""
+    T, F = z3.BoolVal(True), z3.BoolVal(False)
+
+    def recv(st, a):
+        v = res(ex, st, a)
+        return v if isinstance(v, Agg) and v.name == '~sset' else None
+
+    def contains(ex_, st, c, A):
+        s = recv(st, A[0])
+        k = ckey(ex_, st, A[1])
+        if s is None or k is None:
+            return None
+        return s.fields[k]
+    ex.stub(r'HashSet::<.*>::contains::<', contains, 'symbolic set: contains (the membership bit)')
+
+    def insert(ex_, st, c, A):
+        s = recv(st, A[0])
+        k = ckey(ex_, st, A[1])
+        if s is None or k is None:
+            return None
+        r = base_ref(ex_, st, A[0])
+        old = s.fields[k].t
+        return [([], BoolV(z3.simplify(z3.Not(old))), lambda s2: ex_.write(s2, r.fid, r.place, s.with_field(k, BoolV(T))))]
+    ex.stub(r'HashSet::<.*>::insert$', insert, 'symbolic set: insert')
+
+    def remove(ex_, st, c, A):
+        s = recv(st, A[0])
+        k = ckey(ex_, st, A[1])
+        if s is None or k is None:
+            return None
+        r = base_ref(ex_, st, A[0])
+        old = s.fields[k].t
+        return [([], BoolV(old), lambda s2: ex_.write(s2, r.fid, r.place, s.with_field(k, BoolV(F))))]
+    ex.stub(r'HashSet::<.*>::remove::<', remove, 'symbolic set: remove')
+
+    def clear(ex_, st, c, A):
+        s = recv(st, A[0])
+        if s is None:
+            return None
+        r = base_ref(ex_, st, A[0])
+        return [([], UNIT, lambda s2: ex_.write(s2, r.fid, r.place, Agg('struct', '~sset', None, [BoolV(F)] * len(s.fields))))]
+    ex.stub(r'HashSet::<.*>::clear$', clear, 'symbolic set: clear')
+    ex.stub(r'HashSet::<.*>::iter$|<&(std::collections::)?HashSet<.*> as IntoIterator>::into_iter$',
+            lambda ex_, st, c, A: (lambda s: None if s is None else sym_iter([(z3.simplify(b.t), key_cell(j)) for j, b in enumerate(s.fields)]))(recv(st, A[0])), 'symbolic set: iter')
+    ex.stub(r'<(std::collections::)?HashSet<.*> as Clone>::clone$', lambda ex_, st, c, A: recv(st, A[0]), 'symbolic set: clone')
+
+
+def install_eager_filter(ex):
+    """filter over a concrete item list evaluated eagerly (forks where the predicate is symbolic); `cloned` over concrete item lists"""
+    def flt(ex_, st, c, A):
+        it = res(ex_, st, A[0]) if not isinstance(A[0], Agg) else A[0]
+        if not (isinstance(it, Agg) and it.name == '~vec_iter'):
+            return None
+        clo = A[1]
+
+        def go(st2, rest, acc):
+            if not rest:
+                return Agg('struct', '~vec_iter', None, acc)
+            x = rest[0]
+
+            def then(st3, b):
+                if not isinstance(b, BoolV):
+                    raise NotEncoded(f'filter predicate returned {b!r}')
+                t = z3.simplify(b.t)
+                if z3.is_true(t):
+                    return go(st3, rest[1:], acc + [x])
+                if z3.is_false(t):
+                    return go(st3, rest[1:], acc)
+                return [([t], go(st3, rest[1:], acc + [x])), ([z3.Not(t)], go(st3, rest[1:], acc))]
+            return ex_.call_closure(st2, clo, [ex_.new_cell(st2, x, 'filter_item')], then=then)
+        return go(st, list(it.fields), [])
+    ex.stub(r' as Iterator>::filter::<', flt, 'filter over a concrete item list, evaluated eagerly')
+    ex.stub(r' as Iterator>::cloned::<', lambda ex_, st, c, A: Agg('struct', '~vec_iter', None, [res(ex_, st, x) for x in A[0].fields]) if isinstance(A[0], Agg) and A[0].name == '~vec_iter' else None,
+            'cloned over a concrete item list')
